@@ -75,7 +75,7 @@ func c03Class(t *rc.Type) string {
 func c03(c *wk.Ctx) {
 	c.Note("rule", "each case: a random signature T (nested lists, maps with comparable keys, tuples, structs over all scalar kinds incl. c C w W and m), the Go type generated proxies use for T, a random edge-biased value v. Three-way oracle: E = reflection encoder output must decode with the reference decoder to v consuming all of E (and equal the reference bytes when T has no map); signature.Parse(T).Reader().Read(E||trailer) must return exactly E; the reflection decoder must recover v from E. Distinct non-trivial = distinct type shapes with at least one composite or a value kind.")
 	depth := c.Pick(4, 6)
-	c.Cases("three", c.Pick(30000, 500000), func(i int, rng *rand.Rand) {
+	c.Cases("three", c.Pick(100000, 500000), func(i int, rng *rand.Rand) {
 		t := rc.GenType(rng, rc.GenOpts{Depth: depth, Width: 4, Scalars: c03Scalars, ComparableKeys: true, MaxAnonNest: 4})
 		if t.K == rc.Dyn && rng.Intn(2) == 0 {
 			t = rc.ListOf(t)
